@@ -1101,15 +1101,25 @@ class FortranFile:
                 # Comment and blank lines may stand between continuation lines,
                 # they are kept (as empty entries) only when one follows
                 skipped: list[str] = []
+                last = -1  # the line that a continuation line continues
                 while line_ind < self.nLines:
                     next_line = self.get_line(line_ind, pp_content)
                     line_ind += 1
                     if FRegex.FIXED_CONT.match(next_line):
+                        # The trailing comment of a line that is continued is
+                        # not part of the statement
+                        if last < 0:
+                            curr_line = self.strip_comment(curr_line)
+                        else:
+                            post_lines[last] = self.strip_comment(post_lines[last])
                         post_lines.extend(skipped)
                         skipped = []
                         post_lines.append(" " * 6 + next_line[6:])
-                    elif next_line.strip() == "" or FRegex.FIXED_COMMENT.match(
-                        next_line
+                        last = len(post_lines) - 1
+                    elif (
+                        next_line.strip() == ""
+                        or FRegex.FIXED_COMMENT.match(next_line)
+                        or FRegex.FREE_COMMENT.match(next_line)
                     ):
                         skipped.append("")
                     else:
